@@ -32,6 +32,13 @@ def kind(v):
     return type(v).__name__
 
 
+def zero_signs(v):
+    """signs of the zero parts of a float/complex (negative zero is a value of its own); None for non-zero parts"""
+    import math
+    c = complex(v)
+    return tuple((math.copysign(1.0, x) if x == 0 else None) for x in (c.real, c.imag)) if kind(v) != "int" else None
+
+
 def sym_close(a, b, names):
     fa = sym.lambdify([sym.Symbol(n) for n in names], a)
     fb = sym.lambdify([sym.Symbol(n) for n in names], b)
@@ -57,6 +64,8 @@ def same(a, b, path, out, exact_kinds=True):
                 out.append("%s: %r came back as %r" % (path, a, b))
         elif complex(a) != complex(b) and not (a != a and b != b):
             out.append("%s: %r came back as %r" % (path, a, b))
+        elif ka == kb and zero_signs(a) != zero_signs(b):
+            out.append("%s: %r came back as %r (the sign of a zero changed)" % (path, a, b))
         return
     if ka != kb:
         out.append("%s: %r (%s) came back as %r (%s)" % (path, a, ka, b, kb))
@@ -78,6 +87,8 @@ def same(a, b, path, out, exact_kinds=True):
                 same(x, y, "%s[%d]" % (path, i), out, exact_kinds)
         elif not np.array_equal(a, b):
             out.append("%s: array elements changed: %r -> %r" % (path, a.tolist(), b.tolist()))
+        elif a.dtype.kind in "fc" and not (np.array_equal(np.signbit(a.real), np.signbit(b.real)) and np.array_equal(np.signbit(a.imag), np.signbit(b.imag))):
+            out.append("%s: array elements changed (the sign of a zero): %r -> %r" % (path, a.tolist(), b.tolist()))
     elif ka == "sym":
         na, nb = sorted(str(s) for s in a.free_symbols), sorted(str(s) for s in b.free_symbols)
         if na != nb:
